@@ -5,6 +5,7 @@ mod c18;
 mod c19;
 mod c20;
 mod evalreq;
+mod merge;
 mod rx;
 mod specwalk;
 mod util;
@@ -47,6 +48,7 @@ fn main() {
             Some(file) => world::run_replay(&out, file, prop.as_deref(), kind.as_deref()),
             None => world::run(&out, seed, thorough, &side, prop.as_deref(), kind.as_deref()),
         },
+        "merge" => merge::run(&out, seed, thorough, &side),
         "eval" => evalreq::run(&out, replay.as_deref().expect("--replay <request file>"), &side),
         _ => {
             eprintln!("unknown scenario {scenario}");
